@@ -360,7 +360,7 @@ TOUCH_PREFERRED = ["Connection", "ConnectionWD", "Input", "InputW", "ExplicitInp
 
 def touched_duplicate_cases(ck, tab, T, mir):
     """fixed, both tiers: "a child equal to one already present is refused unless forced" must not depend on read-only calls made
-    in between.  For every class with hand-written read-only helpers (translators/tr_helpers.py: __str__, __repr__, summary,
+    in between.  For every class with hand-written read-only helpers (translators/tr_readonly.py: __str__, __repr__, summary,
     get_* ...; one-argument ones such as get_by_id are called with an id that does not exist) and a list member of some parent that
     takes it: schema-valid, realistic children (paths like ../pop/0/cell), and histories in which the new child and / or the stored
     one went through those helpers, or through a refused re-add of the very same object (whose warning formats it with str())."""
@@ -771,12 +771,12 @@ def switch_translate(ck):
 
 
 def helpers_translate(ck):
-    p = subprocess.run([PY, os.path.join(VERIF, "translators", "tr_helpers.py")], capture_output=True, text=True, env=impl_env(), timeout=300)
+    p = subprocess.run([PY, os.path.join(VERIF, "translators", "tr_readonly.py")], capture_output=True, text=True, env=impl_env(), timeout=300)
     try:
         d = json.loads(p.stdout.strip().splitlines()[-1])
     except Exception:  # noqa
-        d = {"writes": [["?", "?", ["tr_helpers failed"]]], "readers": {}, "counted": 0, "errors": ["tr_helpers failed: " + p.stderr[-500:]]}
-    ck.oblige("translate:tr_helpers", not d["errors"], "; ".join(d["errors"][:10]), kind="translate")
+        d = {"writes": [["?", "?", ["tr_readonly failed"]]], "readers": {}, "counted": 0, "errors": ["tr_readonly failed: " + p.stderr[-500:]]}
+    ck.oblige("translate:tr_readonly", not d["errors"], "; ".join(d["errors"][:10]), kind="translate")
     return d
 
 
